@@ -170,7 +170,7 @@ func (c13) Run(t *tape.Tape, tier Tier) *Result {
 		res.add(Violation{Prop: "C13", Oracle: "join-nil", Culprit: "errors.Join", Expected: "nil", Observed: "non-nil"})
 	}
 	spec.Walk(func(n *gen.Node, hidden bool) {
-		if n.K != gen.MJoin {
+		if n.K != gen.MJoin && n.K != gen.MJoinBare {
 			return
 		}
 		je := b.Built[n]
